@@ -20,7 +20,7 @@ M = [
   "                    base = parent_var if parent_var.base is None else parent_var.base\n", "                    base = parent_var if (parent_var.base is None or parent_var.creator is None) else parent_var.base\n",
   "harmless-looking extra condition"),
  ("C06-view-grad-cache-not-validated", "C06", "src/mygrad/tensor_base.py",
-  "        if self._view_grad is not None and self._view_grad.base is self._base._grad:", "        if self._view_grad is not None and self._base._grad is not None:",
+  "        if self._view_grad is not None and (\n            self._view_grad.base is self._base._grad\n", "        if self._view_grad is not None and (\n            self._base._grad is not None\n",
   "cached view gradient returned although the base got a new gradient array"),
  ("C06-identity-view-grad-fix-reverted", "C06", "src/mygrad/tensor_base.py",
   "            or self._view_grad is self._base._grad\n", "",
